@@ -158,21 +158,74 @@ class Run:
         self.lock = threading.Lock()
         self.mem_in_use = 0.0
         self.cv = threading.Condition()
+        self.pruned = {}
 
     # -------------------------------------------------------------- kani
     def prepare_kani(self, profile, uses, active):
+        """weave + build.  If the build fails with errors located in the appended harness modules (a harness refers to
+        an item that no longer exists in /repo: lost anchor), the offending harness functions are pruned and the build is
+        retried, so that one lost anchor does not take the other obligations of the cone down with it."""
         out = os.path.join(self.scratch, profile)
         meta = weave.weave_kani(REPO, out, uses, active)
         self.meta[profile] = meta
         crate = os.path.join(out, 'kani-crate')
         cmd = ['cargo', 'kani', '--only-codegen'] + KANI_FLAGS
-        rc, o, wall, rss, to = run_cmd(cmd, crate, 1800)
-        open(os.path.join(out, 'build.log'), 'w').write(o)
-        if rc != 0 or to:
-            errs = re.findall(r'^error[^\n]*(?:\n[^\n]*){0,6}', o, re.M)
-            return None, 'kani build of the woven crate failed: ' + (' | '.join(e.replace('\n', ' ') for e in errs[:3]) or o[-400:])
-        log('[build] woven crate (%s) compiled by Kani in %.0fs' % (profile, wall))
+        pruned = {}
+        for attempt in range(8):
+            rc, o, wall, rss, to = run_cmd(cmd, crate, 1800)
+            open(os.path.join(out, 'build.log'), 'a').write(o)
+            if rc == 0 and not to:
+                break
+            located = re.findall(r'error(?:\[E\d+\])?: ([^\n]*)\n(?:[^\n]*\n){0,3}?\s*--> src/(verif_\w+\.rs|vspec\.rs):(\d+):\d+', o)
+            progress = False
+            for msg, fn, line in located:
+                if fn == 'vspec.rs':
+                    continue
+                name = self._prune_fn(os.path.join(crate, 'src', fn), int(line))
+                if name:
+                    pruned[name] = msg
+                    progress = True
+            if not progress:
+                errs = re.findall(r'^error[^\n]*(?:\n[^\n]*){0,6}', o, re.M)
+                self.pruned[profile] = pruned
+                return None, 'kani build of the woven crate failed: ' + (' | '.join(e.replace('\n', ' ') for e in errs[:3]) or o[-400:])
+        else:
+            self.pruned[profile] = pruned
+            return None, 'kani build of the woven crate failed after pruning'
+        self.pruned[profile] = pruned
+        log('[build] woven crate (%s) compiled by Kani in %.0fs%s' % (profile, wall, (' after pruning ' + ','.join(sorted(pruned))) if pruned else ''))
         return crate, None
+
+    @staticmethod
+    def _prune_fn(path, line):
+        """remove the top-level fn item (with its attributes and @obl comments) that contains `line`; returns its name"""
+        lines = open(path).read().split('\n')
+        k = min(line - 1, len(lines) - 1)
+        start = None
+        for j in range(k, -1, -1):
+            if re.match(r'(pub(\(crate\))?\s+)?fn\s+\w+', lines[j]):
+                start = j
+                break
+            if j < k and lines[j].startswith('}'):
+                # the error is in an attribute block above a fn (e.g. an unresolved kani::stub path): look downwards instead
+                break
+        if start is None:
+            for j in range(k, min(k + 12, len(lines))):
+                if re.match(r'(pub(\(crate\))?\s+)?fn\s+\w+', lines[j]):
+                    start = j
+                    break
+        if start is None:
+            return None
+        name = re.match(r'(?:pub(?:\(crate\))?\s+)?fn\s+(\w+)', lines[start]).group(1)
+        end = start
+        while end < len(lines) and not lines[end].startswith('}'):
+            end += 1
+        a = start
+        while a > 0 and (lines[a - 1].startswith('#[') or lines[a - 1].startswith('//')):
+            a -= 1
+        lines[a:end + 1] = ['// [pruned: %s no longer compiles against this tree]' % name]
+        open(path, 'w').write('\n'.join(lines))
+        return name
 
     def acquire(self, gb):
         with self.cv:
@@ -289,7 +342,19 @@ class Run:
                                  wall_s=0, rss_mb=0, solver_s=None)
                         self.results.append(r)
             crates[p] = crate
-        todo = [o for o in kani_obls if crates.get(o['profile'])]
+        todo = []
+        for o in kani_obls:
+            if not crates.get(o['profile']):
+                continue
+            pr = self.pruned.get(o['profile'], {})
+            if o['name'] in pr:
+                r = dict(o)
+                r.update(verdict='undecided', reason='lost anchor: the harness no longer compiles against this tree (%s)' % pr[o['name']][:200],
+                         failed=[], checks=0, covers=0, covers_sat=0, wall_s=0, rss_mb=0, solver_s=None)
+                log('[undecided ] %-44s %s' % (o['name'], r['reason']))
+                self.results.append(r)
+            else:
+                todo.append(o)
         todo.sort(key=lambda o: -o['est_s'])
         with cf.ThreadPoolExecutor(max_workers=MAX_JOBS) as ex:
             futs = [ex.submit(self.run_kani_obl, o, crates[o['profile']]) for o in todo]
